@@ -139,14 +139,14 @@ def judge_eval(fa, part, case):
     else:
         sig = f"{impl}:scheme={scheme}:{lenclass}"
     try:
-        signal.signal(signal.SIGALRM, _alarm)
-        signal.setitimer(signal.ITIMER_REAL, 20.0)
+        signal.signal(signal.SIGPROF, _alarm)
+        signal.setitimer(signal.ITIMER_PROF, 20.0)
         try:
             got = call_eval(fa, impl, scheme, reverse, coeffs, x, m)
         finally:
-            signal.setitimer(signal.ITIMER_REAL, 0)
+            signal.setitimer(signal.ITIMER_PROF, 0)
     except _Timeout:
-        add_violation(part, sig + ":does-not-finish", f"{impl}(scheme={scheme}, reverse={reverse}) on {len(coeffs)} coefficients did not finish within 20 s (exact rational arithmetic; the other schemes take milliseconds)", case)
+        add_violation(part, sig + ":does-not-finish", f"{impl}(scheme={scheme}, reverse={reverse}) on {len(coeffs)} coefficients did not finish within 20 s of CPU time (exact rational arithmetic; the other schemes take milliseconds)", case)
         return False
     except Exception as e:  # the utilities must not raise on a well-formed polynomial
         add_violation(part, sig + ":raises", f"{impl} raised {type(e).__name__}: {e} on {case}", case)
